@@ -90,6 +90,14 @@ def gen_dump(rng):
             elif c < 0.3:
                 prog += H.exec_pair(rng.choice((100, 200, 777, 0)), rng.choice((b'execd', b'newimage') + LONG_NAMES), rng.choice((H.NONE, H.ALL)),
                                     word=rng.choice((8, 8, 4)))
+            elif c < 0.34:
+                # the announcements of BOTH kinds pending on one thread at once (data, data, string, string): a name string
+                # belongs to the last data record of ITS OWN kind of the emitting thread, whatever lies in between
+                ex = H.exec_pair(rng.choice((100, 200, 777, 0)), rng.choice((b'execd', b'newimage', b'sh')), rng.choice((H.NONE, H.ALL)))
+                nt = H.newthread_pair(rng.choice(tids + [undeclared, 555]), rng.choice((100, 200, 300, 777, 0)),
+                                      rng.choice((b'renamed', b'child', b'five')), rng.choice((H.NONE, H.ALL)))
+                a, b = (ex, nt) if rng.random() < 0.5 else (nt, ex)
+                prog += rng.choice(([a[0], b[0], a[1], b[1]], [a[0], b[0], b[1], a[1]]))
             elif c < 0.4:
                 prog += [H.A('TRACE_DATA_THREAD_TERMINATE_PID', H.NONE, (rng.choice((100, 200, 888, 0)), 5, 0, 0))]
             elif c < 0.5:
